@@ -89,6 +89,8 @@ type Exec struct {
 	panicsOK int  // >0: inside verifrt.Panics(f)
 	pending  []pendingAssert
 	snaps    []*snapNode
+	syncMaps map[*Value]*Map
+	onceDone map[*Value]bool
 
 	// per path results (merged into the harness stats at path end)
 	res pathResult
